@@ -30,3 +30,11 @@ Theorem C20_tables_nonempty :
   Nat.leb 1 (length pool_sites) = true /\ Nat.leb 1 (length global_writes) = true.
 Proof. exact (conj (eq_refl true) (eq_refl true)). Qed.
 Print Assumptions C20_tables_nonempty.
+
+(** Over histories: any sequence of acquisitions at sites of the current source observes the same field
+    contents whatever the pools held at the start and whichever recycled object the pool hands out at each
+    step (sync.Pool's choice is arbitrary; two arbitrary policies and two arbitrary initial pools). *)
+Theorem C20_histories_ignore_pools : forall h, (forall a, In a h -> In (fst a) pool_sites) ->
+  forall (pick1 pick2 : policy) (p1 p2 : pool), prun pool_types pick1 p1 h = prun pool_types pick2 p2 h.
+Proof. exact (history_ignores_pool pool_types pool_sites C20_all_sites_cover). Qed.
+Print Assumptions C20_histories_ignore_pools.
